@@ -133,6 +133,15 @@ class Driver:
         self.timers.append(deadline)
         await Until(lambda: self.now >= deadline, "sleep")
 
+    def advance_one(self) -> bool:
+        """Advance virtual time to the next timer only (False if there is none)."""
+        if not self.timers:
+            return False
+        nxt = min(self.timers)
+        self.timers.remove(nxt)
+        self.now = max(self.now, nxt)
+        return True
+
     def alive(self) -> List[str]:
         return [t.name for t in self.tasks if not t.done]
 
@@ -196,12 +205,17 @@ class RigTaskGroup:
         q = BoundedQueue(config.max_app_queue_size)
         self.n += 1
         name = f"app{self.n}"
-        inst = {"name": name, "scope": scope, "queue": q, "send": send}
+        inst = {"name": name, "scope": scope, "queue": q, "send": send, "puts": []}
         self.apps.append(inst)
         if self.on_spawn_app:
             self.on_spawn_app(inst)
         self.driver.spawn(name, _handle(app, config, scope, q.get, send, None, None))
-        return q.put
+
+        async def put(item):
+            inst["puts"].append(item)      # what the server hands to this application instance, in order
+            await q.put(item)
+
+        return put
 
     def spawn(self, func, *args) -> None:
         self.n += 1
